@@ -178,11 +178,52 @@ theorem seqKind_inv {k : EvKind} (h : seqKind k = true) : ∃ t start, k = .visi
 theorem seq_cases {t : Sk} (h : t.seq = true) : t = .done ∨ (t.isVisit = true ∧ seqKind (.visit t [] false none) = true) := by
   cases t <;> simp [Sk.seq, Sk.isVisit, seqKind] at h ⊢ <;> exact h
 
-theorem sinv_handler {c1 : Cfg} {acts : List Act} {v : Vol} (cut : Option Nat) (hd : Dur SeqK c1) (hok : ok SeqK c1 acts)
-    (hv : VolI ((acts.foldl Cfg.act c1).withVol v)) (hj : v.joins = []) : SInv (c1.handler acts v cut) := by
+/-- visits still to come -/
+def visits : Sk → Nat
+  | .task _ r => visits r + 1
+  | .step r => visits r + 1
+  | .wait r => visits r + 1
+  | _ => 0
+
+def todoOf : EvKind → Sk
+  | .visit t _ _ _ => t
+  | .reenter _ _ _ _ => .done
+
+def evW (e : QEv) : Nat := 8 * visits (todoOf e.kind) + (if e.unacked then 1 else 6)
+
+/-- what is left to do: eight units per visit to come, less what the event in hand has done, plus the armed timers and
+the replies waiting to be delivered -/
+def mu (c : Cfg) : Nat :=
+  (c.evq.map evW).sum + 3 * c.timers.length + (c.rpq.filter (fun r => !r.unacked)).length
+
+/-- the outcome of a handler invocation: the invariant holds again and, when it was not cut short, there is less left
+to do (`dec`: for the operations the canonical schedule uses) -/
+structure Good (c c' : Cfg) (cut : Option Nat) (dec : Prop) : Prop where
+  inv : SInv c'
+  less : cut = none → dec → mu c' < mu c
+
+theorem good_handler {c c1 : Cfg} {acts : List Act} {v : Vol} {dec : Prop} (cut : Option Nat) (hd : Dur SeqK c1)
+    (hok : ok SeqK c1 acts) (hj : v.joins = [])
+    (hv : VolI ((acts.foldl Cfg.act c1).withVol v) ∧ (dec → mu ((acts.foldl Cfg.act c1).withVol v) < mu c)) :
+    Good c (c1.handler acts v cut) cut dec := by
   cases cut with
-  | none => exact ⟨(hd.all hok).withVol v, hv, hj⟩
-  | some k => exact ⟨(hd.take hok k).crash, VolI.crash _, rfl⟩
+  | none => exact ⟨⟨(hd.all hok).withVol v, hv.1, hj⟩, fun _ hdec => hv.2 hdec⟩
+  | some k => exact ⟨⟨(hd.take hok k).crash, VolI.crash _, rfl⟩, fun hc => by cases hc⟩
+
+theorem length_insertNat_new {x : Nat} {xs : List Nat} (h : x ∉ xs) : (insertNat x xs).length = xs.length + 1 := by
+  unfold insertNat
+  simp [h]
+
+theorem length_erase_mem {x : Nat} {xs : List Nat} (h : x ∈ xs) : (xs.erase x).length + 1 = xs.length := by
+  rw [List.length_erase_of_mem h]
+  have : 0 < xs.length := List.length_pos_of_mem h
+  omega
+
+macro "mu_tac" "[" ts:Lean.Parser.Tactic.simpLemma,* "]" : tactic => `(tactic|
+  (simp only [mu, evW, Cfg.withVol, Cfg.vol, List.foldl, List.map_append, List.map_cons, List.map_nil, List.sum_append,
+      List.sum_cons, List.sum_nil, List.filter_append, List.filter_cons, List.filter_nil, List.length_append,
+      List.length_cons, List.length_nil, todoOf, visits, Bool.not_true, Bool.not_false, Bool.false_eq_true, if_true, if_false, $ts,*]
+   <;> omega))
 
 theorem sinv_init (sk : Sk) (h : sk.seq = true) : SInv (init sk) := by
   refine ⟨?_, ?_, rfl⟩
@@ -201,6 +242,12 @@ theorem markEv_split {c : Cfg} {l1 l2 : List QEv} {m : QEv} (he : c.evq = l1 ++ 
   rw [he, mark_split h1 h2 hu]
 
 
+theorem mem_uRp_ne {l : List QRp} {corr : Nat} (h : ∀ e ∈ l, e.corr ≠ corr) : corr ∉ uRp l := by
+  intro hx; obtain ⟨e, he', _, hid⟩ := mem_uRp.mp hx; exact h e he' hid
+
+theorem mem_uEv_ne {l : List QEv} {id : Nat} (h : ∀ e ∈ l, e.id ≠ id) : id ∉ uEv l := by
+  intro hx; obtain ⟨e, he', _, hid⟩ := mem_uEv.mp hx; exact h e he' hid
+
 macro "voli_grind" : tactic => `(tactic|
   (constructor <;> simp only [Cfg.withVol, Cfg.vol, List.foldl] <;>
     simp only [uEv_append, uEv_cons, uEv_nil, uRp_append, uRp_cons, uRp_nil, mem_insertNat, List.mem_append, List.mem_cons,
@@ -214,8 +261,8 @@ macro "voli_grind_with" "[" ts:Lean.Parser.Tactic.simpLemma,* "]" : tactic => `(
       List.mem_singleton, List.not_mem_nil, or_false, false_or] at * <;>
     grind [timerKind, isTaskKind]))
 
-theorem sinv_ev (c c' : Cfg) (id : Nat) (cut : Option Nat) (h : SInv c)
-    (hs : step Quirks.none c (.ev id) cut = some c') : SInv c' := by
+theorem good_ev (c c' : Cfg) (id : Nat) (cut : Option Nat) (h : SInv c)
+    (hs : step Quirks.none c (.ev id) cut = some c') : Good c c' cut True := by
   unfold step at hs
   rw [if_neg (by simp [h.dur.nodiv])] at hs
   simp only at hs
@@ -239,6 +286,17 @@ theorem sinv_ev (c c' : Cfg) (id : Nat) (cut : Option Nat) (h : SInv c)
     have hnj := h.nojoin
     have hndt := @nodup_insertNat m.id _ tnd
     have hndp := @nodup_insertNat m.id _ pnd
+    have hn1 : m.id ∉ uEv l1 := mem_uEv_ne h1
+    have hn2 : m.id ∉ uEv l2 := mem_uEv_ne h2
+    have hnt : m.id ∉ c.timers := by
+      intro ht
+      have := t_sub _ ht
+      rw [he] at this
+      simp only [uEv_append, uEv_cons, hu, Bool.false_eq_true, if_false, List.mem_append] at this
+      rcases this with h | h
+      · exact hn1 h
+      · exact hn2 h
+    have hlen := length_insertNat_new hnt
     rw [he] at t_sub p_sub he_sub u_ev t_kind p_kind
     simp only [hk, inDeadJoin, evStack, List.any_nil, Bool.false_eq_true, if_false, hpre none rfl, hn] at hs
     have hc1 : ({ c with evq := l1 ++ m' :: l2 } : Cfg).evq = l1 ++ m' :: l2 := rfl
@@ -248,55 +306,56 @@ theorem sinv_ev (c c' : Cfg) (id : Nat) (cut : Option Nat) (h : SInv c)
     have hul2 : ∀ x ∈ uEv l2, x < c.nextId := by
       intro x hx; obtain ⟨e, he', _, rfl⟩ := mem_uEv.mp hx
       exact h.dur.idlt _ (mem_evK (he ▸ List.mem_append_right _ (List.mem_cons_of_mem _ he')))
-    have hn1 : m.id ∉ uEv l1 := by
-      intro hx; obtain ⟨e, he', _, hid⟩ := mem_uEv.mp hx; exact h1 e he' hid
-    have hn2 : m.id ∉ uEv l2 := by
-      intro hx; obtain ⟨e, he', _, hid⟩ := mem_uEv.mp hx; exact h2 e he' hid
     have h1' := h1
     have h2' := h2
-    rw [← hid'] at h1' h2' hlt hs
+    rw [← hid'] at h1' h2' hlt hs hlen
     have hkm' : m'.kind = .visit t [] start none := hk' ▸ hk
+    have hj0 : ({ c with evq := l1 ++ m' :: l2 } : Cfg).vol.joins = [] := hnj
     cases t with
     | wait rest =>
       simp only [Option.some.injEq] at hs
       subst hs
-      refine sinv_handler cut hd1 (ok_pre_only _ start) ?_ (by simp [Cfg.vol, hnj])
+      refine good_handler cut hd1 (ok_pre_only _ start) (by simp [Cfg.vol, hnj]) ?_
       rw [fold_pre]
-      voli_grind
+      refine ⟨by voli_grind, fun _ => ?_⟩
+      mu_tac [he, hu, hu', hk, hkm', hlen]
     | done =>
       simp only [advance_done_top, Option.some.injEq] at hs
       subst hs
-      refine sinv_handler cut hd1 (ok_end start none hc1 h1' h2' hu' (by simp)) ?_ (by simp [Cfg.vol, hnj])
+      refine good_handler cut hd1 (ok_end start none hc1 h1' h2' hu' (by simp)) (by simp [Cfg.vol, hnj]) ?_
       have := fold_end { c with evq := l1 ++ m' :: l2 } start m'.id none
       simp only [ackRof, List.append_nil] at this ⊢
       rw [this]
       have hq := ack_split h1' h2' (l3 := []) (by simp) hu'
       simp only [List.append_nil] at hq
       simp only [hq, ackRq]
-      voli_grind
+      refine ⟨by voli_grind, fun _ => ?_⟩
+      mu_tac [he, hu, hk]
     | step rest =>
       have hrs : rest.seq = true := hseq
       rcases seq_cases hrs with rfl | ⟨hv, hkk⟩
       · simp only [advance_done_top, Option.some.injEq] at hs
         subst hs
-        refine sinv_handler cut hd1 (ok_end start none hc1 h1' h2' hu' (by simp)) ?_ (by simp [Cfg.vol, hnj])
+        refine good_handler cut hd1 (ok_end start none hc1 h1' h2' hu' (by simp)) (by simp [Cfg.vol, hnj]) ?_
         have := fold_end { c with evq := l1 ++ m' :: l2 } start m'.id none
         simp only [ackRof, List.append_nil] at this ⊢
         rw [this]
         have hq := ack_split h1' h2' (l3 := []) (by simp) hu'
         simp only [List.append_nil] at hq
         simp only [hq, ackRq]
-        voli_grind
+        refine ⟨by voli_grind, fun _ => ?_⟩
+        mu_tac [he, hu, hk]
       · simp only [advance_next _ _ _ _ _ _ _ _ _ hv, Option.some.injEq] at hs
         subst hs
-        refine sinv_handler cut hd1 (ok_next start none hc1 h1' h2' hu' hlt hkk (by simp)) ?_ (by simp [Cfg.vol, hnj])
+        refine good_handler cut hd1 (ok_next start none hc1 h1' h2' hu' hlt hkk (by simp)) (by simp [Cfg.vol, hnj]) ?_
         have := fold_next { c with evq := l1 ++ m' :: l2 } start (.visit rest [] false none) m'.id none
         simp only [ackRof, List.append_nil] at this ⊢
         rw [this]
         have hq := ack_split h1' h2' (l3 := [({ id := c.nextId, kind := .visit rest [] false none } : QEv)])
           (by intro e he; simp at he; subst he; simp; omega) hu'
         simp only [hq, ackRq]
-        voli_grind
+        refine ⟨by voli_grind, fun _ => ?_⟩
+        mu_tac [he, hu, hk]
     | task rc rest =>
       cases rc with
       | zero =>
@@ -305,31 +364,33 @@ theorem sinv_ev (c c' : Cfg) (id : Nat) (cut : Option Nat) (h : SInv c)
         by_cases hsn : m'.id ∈ c.sent
         · rw [if_pos hsn, List.nil_append] at hs
           subst hs
-          refine sinv_handler cut hd1 (ok_pre_only _ start) ?_ (by simp [Cfg.vol, hnj])
+          refine good_handler cut hd1 (ok_pre_only _ start) (by simp [Cfg.vol, hnj]) ?_
           rw [fold_pre]
-          voli_grind
+          refine ⟨by voli_grind, fun _ => ?_⟩
+          mu_tac [he, hu, hu', hk, hkm']
         · rw [if_neg hsn] at hs
           subst hs
-          refine sinv_handler cut hd1 (ok_send (m := m') start (by simp) (by rw [hkm']; rfl) hsn) ?_ (by simp [Cfg.vol, hnj])
+          refine good_handler cut hd1 (ok_send (m := m') start (by simp) (by rw [hkm']; rfl) hsn) (by simp [Cfg.vol, hnj]) ?_
           rw [fold_send_pre]
-          voli_grind
+          refine ⟨by voli_grind, fun _ => ?_⟩
+          mu_tac [he, hu, hu', hk, hkm']
       | succ rc =>
         simp only [Quirks.none, Bool.false_or, Nat.succ_ne_zero, bne_iff_ne, ne_eq, not_false_eq_true, decide_true,
           if_true, Option.some.injEq] at hs
         subst hs
-        refine sinv_handler cut hd1 (ok_pre_only _ start) ?_ (by simp [Cfg.vol, hnj])
+        refine good_handler cut hd1 (ok_pre_only _ start) (by simp [Cfg.vol, hnj]) ?_
         rw [fold_pre]
-        voli_grind
+        refine ⟨by voli_grind, fun _ => ?_⟩
+        mu_tac [he, hu, hu', hk, hkm', hlen]
     | par _ _ _ => simp [Sk.seq] at hseq
     | child _ _ _ => simp [Sk.seq] at hseq
     | fail _ _ => simp [Sk.seq] at hseq
     | «opaque» => simp [Sk.seq] at hseq
 
-
 theorem withVol_vol (c : Cfg) : c.withVol c.vol = c := rfl
 
-theorem sinv_noop (c : Cfg) (cut : Option Nat) (h : SInv c) : SInv (c.handler [] c.vol cut) :=
-  sinv_handler cut h.dur trivial (by simpa [withVol_vol] using h.vol) (by simp [Cfg.vol, h.nojoin])
+theorem good_noop (c : Cfg) (cut : Option Nat) (h : SInv c) : Good c (c.handler [] c.vol cut) cut False :=
+  good_handler cut h.dur trivial (by simp [Cfg.vol, h.nojoin]) ⟨by simpa [withVol_vol] using h.vol, fun hf => hf.elim⟩
 
 /-- the unacknowledged event with a given id, and the queue around it -/
 theorem unacked_split {c : Cfg} (h : SInv c) {id : Nat} (hid : id ∈ uEv c.evq) :
@@ -339,8 +400,8 @@ theorem unacked_split {c : Cfg} (h : SInv c) {id : Nat} (hid : id ∈ uEv c.evq)
   obtain ⟨l1, l2, he, h1, h2⟩ := split_of_mem hm (by rw [← evK_ids]; exact h.dur.ids)
   exact ⟨m, l1, l2, he, rfl, hu, h1, h2, by have := findEv_split he h1; rwa [hu] at this⟩
 
-theorem sinv_tm (c c' : Cfg) (id : Nat) (cut : Option Nat) (h : SInv c)
-    (hs : step Quirks.none c (.tm id) cut = some c') : SInv c' := by
+theorem good_tm (c c' : Cfg) (id : Nat) (cut : Option Nat) (h : SInv c)
+    (hs : step Quirks.none c (.tm id) cut = some c') : Good c c' cut (id ∈ c.timers) := by
   unfold step at hs
   rw [if_neg (by simp [h.dur.nodiv])] at hs
   simp only at hs
@@ -361,6 +422,7 @@ theorem sinv_tm (c c' : Cfg) (id : Nat) (cut : Option Nat) (h : SInv c)
     have hte : ∀ a, a ∈ c.timers.erase m.id ↔ a ≠ m.id ∧ a ∈ c.timers := fun a => List.Nodup.mem_erase_iff tnd
     have hnde := tnd.erase m.id
     have hndp := @nodup_insertNat m.id _ pnd
+    have hlen := length_erase_mem hc
     have hul1 : ∀ x ∈ uEv l1, x < c.nextId := by
       intro x hx; obtain ⟨e, he', _, rfl⟩ := mem_uEv.mp hx
       exact h.dur.idlt _ (mem_evK (he ▸ List.mem_append_left _ he'))
@@ -369,10 +431,8 @@ theorem sinv_tm (c c' : Cfg) (id : Nat) (cut : Option Nat) (h : SInv c)
       exact h.dur.idlt _ (mem_evK (he ▸ List.mem_append_right _ (List.mem_cons_of_mem _ he')))
     have hE : heldE c.joins = [] := by rw [hnj]; rfl
     have hR : heldR c.joins = [] := by rw [hnj]; rfl
-    have hn1 : m.id ∉ uEv l1 := by
-      intro hx; obtain ⟨e, he', _, hid⟩ := mem_uEv.mp hx; exact h1 e he' hid
-    have hn2 : m.id ∉ uEv l2 := by
-      intro hx; obtain ⟨e, he', _, hid⟩ := mem_uEv.mp hx; exact h2 e he' hid
+    have hn1 : m.id ∉ uEv l1 := mem_uEv_ne h1
+    have hn2 : m.id ∉ uEv l2 := mem_uEv_ne h2
     rw [he] at t_sub p_sub he_sub u_ev t_kind p_kind
     simp only [hk, hn] at hs
     cases t with
@@ -381,39 +441,43 @@ theorem sinv_tm (c c' : Cfg) (id : Nat) (cut : Option Nat) (h : SInv c)
       rcases seq_cases hrs with rfl | ⟨hv, hkk⟩
       · simp only [advance_done_top, Option.some.injEq] at hs
         subst hs
-        refine sinv_handler cut h.dur (ok_end false none he h1 h2 hu (by simp)) ?_ (by simp [Cfg.vol, hnj])
+        refine good_handler cut h.dur (ok_end false none he h1 h2 hu (by simp)) (by simp [Cfg.vol, hnj]) ?_
         have := fold_end c false m.id none
         simp only [ackRof, List.append_nil, preOf, Bool.false_eq_true, if_false, List.nil_append] at this ⊢
         rw [this]
         have hq := ack_split h1 h2 (l3 := []) (by simp) hu
         simp only [List.append_nil] at hq
         simp only [he, hq, ackRq]
-        voli_grind
+        refine ⟨by voli_grind, fun _ => ?_⟩
+        mu_tac [he, hu, hk]
       · simp only [advance_next _ _ _ _ _ _ _ _ _ hv, Option.some.injEq] at hs
         subst hs
-        refine sinv_handler cut h.dur (ok_next false none he h1 h2 hu hlt hkk (by simp)) ?_ (by simp [Cfg.vol, hnj])
+        refine good_handler cut h.dur (ok_next false none he h1 h2 hu hlt hkk (by simp)) (by simp [Cfg.vol, hnj]) ?_
         have := fold_next c false (.visit rest [] false none) m.id none
         simp only [ackRof, List.append_nil, preOf, Bool.false_eq_true, if_false, List.nil_append] at this ⊢
         rw [this]
         have hq := ack_split h1 h2 (l3 := [({ id := c.nextId, kind := .visit rest [] false none } : QEv)])
           (by intro e he; simp at he; subst he; simp; omega) hu
         simp only [he, hq, ackRq]
-        voli_grind
+        refine ⟨by voli_grind, fun _ => ?_⟩
+        mu_tac [he, hu, hk]
     | task rc rest =>
       simp only [Quirks.none, Bool.false_eq_true, if_false, requestOf, Option.some.injEq, List.contains_iff_mem] at hs
       by_cases hsn : m.id ∈ c.sent
       · simp only [hsn, if_true] at hs
         subst hs
-        refine sinv_handler cut h.dur trivial ?_ (by simp [Cfg.vol, hnj])
-        voli_grind_with [he]
+        refine good_handler cut h.dur trivial (by simp [Cfg.vol, hnj]) ?_
+        refine ⟨by voli_grind_with [he], fun _ => ?_⟩
+        mu_tac [he, hu, hk]
       · simp only [hsn, if_false] at hs
         subst hs
-        refine sinv_handler cut h.dur (ok_send (m := m) false hm (by rw [hk]; rfl) hsn) ?_ (by simp [Cfg.vol, hnj])
+        refine good_handler cut h.dur (ok_send (m := m) false hm (by rw [hk]; rfl) hsn) (by simp [Cfg.vol, hnj]) ?_
         have := fold_send_pre c false m.id
         simp only [preOf, Bool.false_eq_true, if_false, List.append_nil] at this ⊢
         rw [this]
         simp only [he]
-        voli_grind
+        refine ⟨by voli_grind, fun _ => ?_⟩
+        mu_tac [he, hu, hk]
     | done => simp at hs
     | step _ => simp at hs
     | par _ _ _ => simp [Sk.seq] at hseq
@@ -423,26 +487,21 @@ theorem sinv_tm (c c' : Cfg) (id : Nat) (cut : Option Nat) (h : SInv c)
   · have hc' : (!c.timers.contains id) = true := by simp [hc]
     rw [hc'] at hs
     simp only [if_true] at hs
+    have weaken : ∀ {x : Cfg}, Good c x cut False → Good c x cut (id ∈ c.timers) :=
+      fun g => ⟨g.inv, fun _ hd => absurd hd hc⟩
     cases hf : findEv c id true with
     | none => rw [hf] at hs; cases hs
     | some m =>
       rw [hf] at hs
       simp only [Quirks.none, Bool.false_eq_true, if_false] at hs
       split at hs
-      · cases hs; exact sinv_noop c cut h
-      · cases hs; exact sinv_noop c cut h
+      · cases hs; exact weaken (good_noop c cut h)
+      · cases hs; exact weaken (good_noop c cut h)
       · cases hs
-
-
-theorem mem_uRp_ne {l : List QRp} {corr : Nat} (h : ∀ e ∈ l, e.corr ≠ corr) : corr ∉ uRp l := by
-  intro hx; obtain ⟨e, he', _, hid⟩ := mem_uRp.mp hx; exact h e he' hid
-
-theorem mem_uEv_ne {l : List QEv} {id : Nat} (h : ∀ e ∈ l, e.id ≠ id) : id ∉ uEv l := by
-  intro hx; obtain ⟨e, he', _, hid⟩ := mem_uEv.mp hx; exact h e he' hid
 
 /-- the reply to `corr` completes the Task visit of event `m`: the common part of `rp` (the reply was just delivered) and
 `tick` (it was retained) -/
-theorem sinv_reply (c c' : Cfg) (cut : Option Nat) (h : SInv c) {m : QEv} {l1 l2 : List QEv} {r : QRp} {k1 k2 : List QRp}
+theorem good_reply (c c' : Cfg) (cut : Option Nat) (h : SInv c) {m : QEv} {l1 l2 : List QEv} {r : QRp} {k1 k2 : List QRp}
     (orph : List Nat)
     (he : c.evq = l1 ++ m :: l2) (hu : m.unacked = true) (h1 : ∀ e ∈ l1, e.id ≠ m.id) (h2 : ∀ e ∈ l2, e.id ≠ m.id)
     (hp : m.id ∈ c.pending)
@@ -453,7 +512,9 @@ theorem sinv_reply (c c' : Cfg) (cut : Option Nat) (h : SInv c) {m : QEv} {l1 l2
     {acts : List Act} {v' : Vol} (x : Nat) (hx : x = m.id)
     (hon : onReply Quirks.none { c with rpq := k1 ++ r' :: k2 } x
               { timers := c.timers, pending := c.pending, orphans := orph, joins := c.joins } = some (acts, v'))
-    (hs : c' = ({ c with rpq := k1 ++ r' :: k2 } : Cfg).handler acts v' cut) : SInv c' := by
+    (hrdy : (k1 ++ r :: k2).filter (fun x => !x.unacked) = (k1 ++ k2).filter (fun x => !x.unacked) ∨
+      ((k1 ++ r :: k2).filter (fun x => !x.unacked)).length = ((k1 ++ k2).filter (fun x => !x.unacked)).length + 1)
+    (hs : c' = ({ c with rpq := k1 ++ r' :: k2 } : Cfg).handler acts v' cut) : Good c c' cut True := by
   subst hx
   have hm : m ∈ c.evq := by rw [he]; simp
   obtain ⟨t, start, hk, hseq⟩ := seqKind_inv (h.dur.kinds _ (mem_evK hm))
@@ -501,25 +562,39 @@ theorem sinv_reply (c c' : Cfg) (cut : Option Nat) (h : SInv c) {m : QEv} {l1 l2
     · simp only [advance_done_top, Option.some.injEq, Prod.mk.injEq] at hon
       obtain ⟨rfl, rfl⟩ := hon
       subst hs
-      refine sinv_handler cut hd1 (ok_end false (some m.id) hc1e h1 h2 hu (by simp)) ?_ (by simp [hnj])
+      refine good_handler cut hd1 (ok_end false (some m.id) hc1e h1 h2 hu (by simp)) (by simp [hnj]) ?_
       have := fold_end { c with rpq := k1 ++ r' :: k2 } false m.id (some m.id)
       simp only [preOf, Bool.false_eq_true, if_false, List.nil_append] at this ⊢
       rw [this]
       have hq := ack_split h1 h2 (l3 := []) (by simp) hu
       simp only [List.append_nil] at hq
       simp only [he, hq, ackRq, hrq]
-      voli_grind
+      have hrl : ((k1 ++ k2).filter (fun x => !x.unacked)).length ≤ ((k1 ++ r :: k2).filter (fun x => !x.unacked)).length := by
+        rcases hrdy with h | h
+        · rw [h]; exact Nat.le_refl _
+        · omega
+      refine ⟨by voli_grind, fun _ => ?_⟩
+      simp only [mu, evW, Cfg.withVol, he, hr, List.map_append, List.map_cons, List.map_nil, List.sum_append, List.sum_cons,
+        List.sum_nil, hu, hk, todoOf, visits, if_true, Bool.false_eq_true, if_false]
+      omega
     · simp only [advance_next _ _ _ _ _ _ _ _ _ hv, Option.some.injEq, Prod.mk.injEq] at hon
       obtain ⟨rfl, rfl⟩ := hon
       subst hs
-      refine sinv_handler cut hd1 (ok_next false (some m.id) hc1e h1 h2 hu hlt hkk (by simp)) ?_ (by simp [hnj])
+      refine good_handler cut hd1 (ok_next false (some m.id) hc1e h1 h2 hu hlt hkk (by simp)) (by simp [hnj]) ?_
       have := fold_next { c with rpq := k1 ++ r' :: k2 } false (.visit rest [] false none) m.id (some m.id)
       simp only [preOf, Bool.false_eq_true, if_false, List.nil_append] at this ⊢
       rw [this]
       have hq := ack_split h1 h2 (l3 := [({ id := c.nextId, kind := .visit rest [] false none } : QEv)])
         (by intro e he; simp at he; subst he; simp; omega) hu
       simp only [he, hq, ackRq, hrq]
-      voli_grind
+      have hrl : ((k1 ++ k2).filter (fun x => !x.unacked)).length ≤ ((k1 ++ r :: k2).filter (fun x => !x.unacked)).length := by
+        rcases hrdy with h | h
+        · rw [h]; exact Nat.le_refl _
+        · omega
+      refine ⟨by voli_grind, fun _ => ?_⟩
+      simp only [mu, evW, Cfg.withVol, he, hr, List.map_append, List.map_cons, List.map_nil, List.sum_append, List.sum_cons,
+        List.sum_nil, hu, hk, todoOf, visits, if_true, Bool.false_eq_true, if_false]
+      omega
   | done => rw [hk] at hpk; simp [isTaskKind] at hpk
   | step _ => rw [hk] at hpk; simp [isTaskKind] at hpk
   | wait _ => rw [hk] at hpk; simp [isTaskKind] at hpk
@@ -529,8 +604,8 @@ theorem sinv_reply (c c' : Cfg) (cut : Option Nat) (h : SInv c) {m : QEv} {l1 l2
   | «opaque» => simp [Sk.seq] at hseq
 
 
-theorem sinv_rp (c c' : Cfg) (corr : Nat) (cut : Option Nat) (h : SInv c)
-    (hs : step Quirks.none c (.rp corr) cut = some c') : SInv c' := by
+theorem good_rp (c c' : Cfg) (corr : Nat) (cut : Option Nat) (h : SInv c)
+    (hs : step Quirks.none c (.rp corr) cut = some c') : Good c c' cut True := by
   unfold step at hs
   rw [if_neg (by simp [h.dur.nodiv])] at hs
   simp only at hs
@@ -563,9 +638,9 @@ theorem sinv_rp (c c' : Cfg) (corr : Nat) (cut : Option Nat) (h : SInv c)
       simp only [Cfg.vol] at hs
       split at hs
       · rename_i acts v' hon
-        exact sinv_reply c c' cut h c.orphans he hu h1 h2 (hid ▸ hp) hk hid.symm g1 g2 { r with unacked := true } rfl rfl
+        exact good_reply c c' cut h c.orphans he hu h1 h2 (hid ▸ hp) hk hid.symm g1 g2 { r with unacked := true } rfl rfl
           (fun a => ⟨fun ha => ⟨fun e => hno (hid ▸ e ▸ ha), ha⟩, fun ha => ha.2⟩) h.vol.ond (by simp [hru]) r.corr hid.symm hon
-          (Option.some.inj hs).symm
+          (Or.inr (by simp [List.filter_append, hru]; omega)) (Option.some.inj hs).symm
       · cases hs
     · have hp' : ¬ (({ c with rpq := k1 ++ { r with unacked := true } :: k2 } : Cfg).vol.pending.contains r.corr) = true := by
         simp [Cfg.vol, hp]
@@ -575,20 +650,21 @@ theorem sinv_rp (c c' : Cfg) (corr : Nat) (cut : Option Nat) (h : SInv c)
       have hd1 : Dur SeqK { c with rpq := k1 ++ { r with unacked := true } :: k2 } := by
         refine h.dur.congr rfl ?_ rfl rfl rfl rfl
         simp [rpC, hk]
-      refine sinv_handler cut hd1 trivial ?_ (by simp [Cfg.vol, h.nojoin])
+      refine good_handler cut hd1 trivial (by simp [Cfg.vol, h.nojoin]) ?_
       obtain ⟨tnd, pnd, ond, t_sub, p_sub, o_sub, he_sub, hr_sub, u_ev, u_rp, t_kind, p_kind, tp⟩ := h.vol
       have hndo := @nodup_insertNat r.corr _ ond
       have hnj := h.nojoin
       have hE : heldE c.joins = [] := by rw [hnj]; rfl
       have hR : heldR c.joins = [] := by rw [hnj]; rfl
       rw [hk] at o_sub hr_sub u_rp
-      voli_grind
+      refine ⟨by voli_grind, fun _ => ?_⟩
+      mu_tac [hk, hru]
   · have : (!c.rpq.any (fun r => r.corr == corr && !r.unacked)) = true := by simp [hany]
     rw [if_pos this] at hs
     cases hs
 
-theorem sinv_tick (c c' : Cfg) (cut : Option Nat) (h : SInv c)
-    (hs : step Quirks.none c .tick cut = some c') : SInv c' := by
+theorem good_tick (c c' : Cfg) (cut : Option Nat) (h : SInv c)
+    (hs : step Quirks.none c .tick cut = some c') : Good c c' cut (∃ o ∈ c.orphans, o ∈ c.pending) := by
   unfold step at hs
   rw [if_neg (by simp [h.dur.nodiv])] at hs
   simp only at hs
@@ -597,7 +673,8 @@ theorem sinv_tick (c c' : Cfg) (cut : Option Nat) (h : SInv c)
     rw [hf] at hs
     simp only [Option.some.injEq] at hs
     subst hs
-    exact sinv_noop c cut h
+    have hnone := List.find?_eq_none.mp hf
+    exact ⟨(good_noop c cut h).inv, fun _ ⟨o, ho, hp⟩ => absurd (by simpa using hp) (hnone o ho)⟩
   | some corr =>
     rw [hf] at hs
     simp only at hs
@@ -612,17 +689,19 @@ theorem sinv_tick (c c' : Cfg) (cut : Option Nat) (h : SInv c)
     split at hs
     · rename_i acts v' hon
       rw [hcc] at hon hs
-      exact sinv_reply c c' cut h (c.orphans.erase m.id) he hu h1 h2 hp hk hrc g1 g2 r rfl hru
-        (fun a => List.Nodup.mem_erase_iff h.vol.ond) (h.vol.ond.erase _) (fun _ => ho) m.id rfl hon (Option.some.inj hs).symm
+      have g := good_reply c c' cut h (c.orphans.erase m.id) he hu h1 h2 hp hk hrc g1 g2 r rfl hru
+        (fun a => List.Nodup.mem_erase_iff h.vol.ond) (h.vol.ond.erase _) (fun _ => ho) m.id rfl hon
+        (Or.inl (by simp [List.filter_append, hru])) (Option.some.inj hs).symm
+      exact ⟨g.inv, fun hc _ => g.less hc trivial⟩
     · cases hs
 
 theorem sinv_step (c c' : Cfg) (op : Op) (cut : Option Nat) (h : SInv c)
     (hs : step Quirks.none c op cut = some c') : SInv c' := by
   cases op with
-  | ev id => exact sinv_ev c c' id cut h hs
-  | tm id => exact sinv_tm c c' id cut h hs
-  | rp corr => exact sinv_rp c c' corr cut h hs
-  | tick => exact sinv_tick c c' cut h hs
+  | ev id => exact (good_ev c c' id cut h hs).inv
+  | tm id => exact (good_tm c c' id cut h hs).inv
+  | rp corr => exact (good_rp c c' corr cut h hs).inv
+  | tick => exact (good_tick c c' cut h hs).inv
   | crash =>
     unfold step at hs
     rw [if_neg (by simp [h.dur.nodiv])] at hs
@@ -642,5 +721,180 @@ theorem sinv_run (c c' : Cfg) (sched : Sched) (h : SInv c) (hr : run Quirks.none
     · rename_i c1 h1
       exact ih c1 (sinv_step c c1 op cut h h1) hr
     · cases hr
+
+
+/-! ### the canonical crash-free run ends the execution -/
+
+theorem task_of_seq {k : EvKind} (hs : seqKind k = true) (ht : isTaskKind k = true) :
+    ∃ rc rest start, k = .visit (.task rc rest) [] start none := by
+  obtain ⟨t, start, rfl, hseq⟩ := seqKind_inv hs
+  cases t <;> simp [isTaskKind, Sk.seq] at ht hseq
+  exact ⟨_, _, _, rfl⟩
+
+theorem onReply_enabled {c c1 : Cfg} (h : SInv c) {corr : Nat} (hp : corr ∈ c.pending) (v : Vol)
+    (hev : c1.evq = c.evq) : ∃ x, onReply Quirks.none c1 corr v = some x := by
+  obtain ⟨m, l1, l2, he, hid, hu, h1, h2, hf⟩ := unacked_split h (h.vol.p_sub _ hp).1
+  have hm : m ∈ c.evq := by rw [he]; simp
+  obtain ⟨rc, rest, start, hk⟩ := task_of_seq (h.dur.kinds _ (mem_evK hm)) (h.vol.p_kind m hm (hid ▸ hp))
+  replace hk : m.kind = .visit (.task rc rest) [] start none := hk
+  have hf1 : findEv c1 corr true = some m := by
+    unfold findEv at hf ⊢; rw [hev]; exact hf
+  simp only [onReply, hf1, hk]
+  exact ⟨_, rfl⟩
+
+theorem canon_enabled (c : Cfg) (h : SInv c) (op : Op) (hop : nextOp c = some op) :
+    (∃ c', step Quirks.none c op none = some c') ∧
+      (match op with
+       | .ev _ => True
+       | .tm id => id ∈ c.timers
+       | .rp _ => True
+       | .tick => ∃ o ∈ c.orphans, o ∈ c.pending
+       | .crash => False) := by
+  have hnd : c.diverged = false := h.dur.nodiv
+  unfold nextOp at hop
+  split at hop
+  · -- a timer is armed
+    rename_i t ts ht
+    cases hop
+    have hc : t ∈ c.timers := by rw [ht]; simp
+    refine ⟨?_, hc⟩
+    obtain ⟨m, l1, l2, he, hid, hu, h1, h2, hf⟩ := unacked_split h (h.vol.t_sub t hc)
+    have hm : m ∈ c.evq := by rw [he]; simp
+    obtain ⟨tt, start, hk, hseq⟩ := seqKind_inv (h.dur.kinds _ (mem_evK hm))
+    replace hk : m.kind = .visit tt [] start none := hk
+    have htk := h.vol.t_kind m hm (hid ▸ hc)
+    have hc' : (!c.timers.contains t) = false := by simp [hc]
+    unfold step
+    rw [if_neg (by simp [hnd])]
+    simp only [hc', Bool.false_eq_true, if_false, hf, hk]
+    cases tt <;> simp [hk, timerKind, Sk.seq] at htk hseq ⊢
+  · split at hop
+    · -- an event is ready
+      rename_i m hm
+      cases hop
+      refine ⟨?_, trivial⟩
+      have hmm := List.mem_of_find?_eq_some hm
+      have hmu : m.unacked = false := by simpa using List.find?_some hm
+      obtain ⟨l1, l2, he, h1, h2⟩ := split_of_mem hmm (by rw [← evK_ids]; exact h.dur.ids)
+      have hf : findEv c m.id false = some m := by
+        have := findEv_split he h1; rwa [hmu] at this
+      obtain ⟨tt, start, hk, hseq⟩ := seqKind_inv (h.dur.kinds _ (mem_evK hmm))
+      replace hk : m.kind = .visit tt [] start none := hk
+      unfold step
+      rw [if_neg (by simp [hnd])]
+      simp only [hf, hk, inDeadJoin, evStack, List.any_nil, Bool.false_eq_true, if_false]
+      cases tt <;> simp [Sk.seq] at hseq ⊢
+      split <;> exact ⟨_, rfl⟩
+    · split at hop
+      · -- a reply is ready
+        rename_i hne r hr
+        cases hop
+        refine ⟨?_, trivial⟩
+        have hrm := List.mem_of_find?_eq_some hr
+        have hru : r.unacked = false := by simpa using List.find?_some hr
+        have hany : (c.rpq.any (fun x => x.corr == r.corr && !x.unacked)) = true :=
+          List.any_eq_true.mpr ⟨r, hrm, by simp [hru]⟩
+        unfold step
+        rw [if_neg (by simp [hnd])]
+        simp only [hany, Bool.not_true, Bool.false_eq_true, if_false]
+        by_cases hp : r.corr ∈ c.pending
+        · have hp' : (({ c with rpq := markRpL c.rpq r.corr } : Cfg).vol.pending.contains r.corr) = true := by
+            simp [Cfg.vol, hp]
+          rw [if_pos hp']
+          obtain ⟨x, hx⟩ := onReply_enabled (c1 := { c with rpq := markRpL c.rpq r.corr }) h hp
+            ({ c with rpq := markRpL c.rpq r.corr } : Cfg).vol rfl
+          rw [hx]
+          exact ⟨_, rfl⟩
+        · have hp' : ¬ (({ c with rpq := markRpL c.rpq r.corr } : Cfg).vol.pending.contains r.corr) = true := by
+            simp [Cfg.vol, hp]
+          rw [if_neg hp']
+          exact ⟨_, rfl⟩
+      · -- the orphan handler has something to match
+        split at hop
+        · rename_i hany
+          cases hop
+          obtain ⟨o, ho, hpo⟩ := List.any_eq_true.mp hany
+          have hpo' : o ∈ c.pending := by simpa using hpo
+          refine ⟨?_, o, ho, hpo'⟩
+          unfold step
+          rw [if_neg (by simp [hnd])]
+          simp only
+          cases hf : c.orphans.find? (fun o => c.pending.contains o) with
+          | none => exact absurd hpo (List.find?_eq_none.mp hf o ho)
+          | some corr =>
+            have hp : corr ∈ c.pending := by simpa using List.find?_some hf
+            obtain ⟨x, hx⟩ := onReply_enabled (c1 := c) h hp { c.vol with orphans := c.orphans.erase corr } rfl
+            simp only [hx]
+            exact ⟨_, rfl⟩
+        · cases hop
+
+/-- nothing enabled: nothing is left in the event queue -/
+theorem quiet_empty (c : Cfg) (h : SInv c) (hq : nextOp c = none) : c.evq = [] := by
+  unfold nextOp at hq
+  split at hq
+  · cases hq
+  · rename_i ht
+    split at hq
+    · cases hq
+    · rename_i hev
+      split at hq
+      · cases hq
+      · rename_i hrp
+        split at hq
+        · cases hq
+        · rename_i hany
+          -- an event would be unacknowledged, pending, requested, its reply unacknowledged and retained: the orphan
+          -- handler would match it
+          apply List.eq_nil_iff_forall_not_mem.mpr
+          intro e he
+          have heu : e.unacked = true := by
+            have := List.find?_eq_none.mp hev e he
+            simpa using this
+          have hu := h.vol.u_ev e.id (mem_uEv.mpr ⟨e, he, heu, rfl⟩)
+          rw [ht, h.nojoin] at hu
+          simp only [List.not_mem_nil, heldE_nil, or_false, false_or] at hu
+          have hs := (h.vol.p_sub _ hu).2
+          obtain ⟨_, hr⟩ := h.dur.reply _ (mem_evK he) hs
+          obtain ⟨r, hrm, hrc⟩ := List.mem_map.mp hr
+          have hru : r.unacked = true := by
+            have := List.find?_eq_none.mp hrp r hrm
+            simpa using this
+          have ho := h.vol.u_rp r.corr (mem_uRp.mpr ⟨r, hrm, hru, rfl⟩)
+          rw [h.nojoin] at ho
+          simp only [heldR_nil, List.not_mem_nil, or_false] at ho
+          apply hany
+          exact List.any_eq_true.mpr ⟨r.corr, ho, by rw [hrc]; simpa using hu⟩
+
+theorem canon_progress (c : Cfg) (h : SInv c) (op : Op) (hop : nextOp c = some op) :
+    ∃ c', step Quirks.none c op none = some c' ∧ SInv c' ∧ mu c' < mu c := by
+  obtain ⟨⟨c', hs⟩, hdec⟩ := canon_enabled c h op hop
+  refine ⟨c', hs, ?_⟩
+  cases op with
+  | ev id => have g := good_ev c c' id none h hs; exact ⟨g.inv, g.less rfl trivial⟩
+  | tm id => have g := good_tm c c' id none h hs; exact ⟨g.inv, g.less rfl hdec⟩
+  | rp corr => have g := good_rp c c' corr none h hs; exact ⟨g.inv, g.less rfl trivial⟩
+  | tick => have g := good_tick c c' none h hs; exact ⟨g.inv, g.less rfl hdec⟩
+  | crash => exact hdec.elim
+
+/-- from any reachable configuration the crash-free canonical run comes to rest with the invariant intact -/
+theorem sdrain (fuel : Nat) (c : Cfg) (h : SInv c) (hf : mu c ≤ fuel) :
+    SInv (drain Quirks.none fuel c) ∧ nextOp (drain Quirks.none fuel c) = none := by
+  induction fuel generalizing c with
+  | zero =>
+    simp only [drain]
+    refine ⟨h, ?_⟩
+    cases hop : nextOp c with
+    | none => rfl
+    | some op =>
+      obtain ⟨c', _, _, hlt⟩ := canon_progress c h op hop
+      omega
+  | succ fuel ih =>
+    simp only [drain, h.dur.nodiv, Bool.false_eq_true, if_false]
+    cases hop : nextOp c with
+    | none => exact ⟨h, hop⟩
+    | some op =>
+      obtain ⟨c', hs, hi, hlt⟩ := canon_progress c h op hop
+      simp only [hs]
+      exact ih c' hi (by omega)
 
 end Asl.Crash
